@@ -24,6 +24,12 @@ CHECKS = {
         "Trusted: the reference model; exact comparison is possible because generated values have finite decimal expansions well inside the Decimal range.",
         "4/C03",
     ),
+    "C04": (
+        "runtime monitor: accepted generated histories queried over every boundary date range on one Ledger value; balance compared with the exact sum of the register, adjacency, raw vs re-fold path, CLI balance/register sample",
+        "1.2*10^4 (quick) / 6*10^5 (thorough) accepted ledgers of 3-32 transactions, each queried over ~140 (start, end) ranges built from every transaction date, its neighbours, far before/after and open ends (empty and inverted ranges included): Ledger::balance must equal the exact per-account, per-commodity sum of the register's postings dated in [start, end) (exactly or after half-even rounding to the declared precision), never list an exact-zero commodity, never lose or duplicate an account or commodity; adjacent ranges add up; whole-history (incremental) and re-fold paths and `okane register`'s final running total agree; a sample goes through `okane balance --start/--end`.",
+        "Trusted: exact-rational summation in the harness; reading of 'up to rounding' as exact-or-rounded. Ledgers rejected by the code are skipped (outside 'accepted ledgers').",
+        "4/C04",
+    ),
     "C05": (
         "runtime monitor: grammar-driven generator from doc/syntax.md, three oracles (intended tree, parse∘format = parse, format idempotent), greedy feature minimisation for violation classes",
         "Texts covering every production of doc/syntax.md with hostile whitespace, CRLF, EOF-terminated last lines and Unicode are parsed and formatted by the real code; the parsed entries must equal the generator's intended tree, formatting must preserve the canonical meaning dump and be byte-idempotent. 4*10^5 (quick) / 2*10^7 (thorough) texts.",
